@@ -121,10 +121,23 @@ class ConcreteL:
     def __init__(self, T, R, P):
         self.S, self.A, self.E = T.shape
         self.T, self.R, self.P = zx.to_obj(T), zx.to_obj(R), zx.to_obj(P)
+        for idx in np.ndindex(self.R.shape):     # rewards / probabilities as rationals whatever dtype the problem used
+            self.R[idx], self.P[idx] = zx.to_real(self.R[idx]), zx.to_real(self.P[idx])
 
 
-def sweep_obligations(ob, L, new, pol, V, gamma, pre, action_space, cex_extra):
+def sweep_obligations(ob, L, new, pol, V, gamma, pre, action_space, cex_extra, rounding_tol=None):
+    """rounding_tol: for legs whose reference tables are float-rounded (special functions evaluated by JAX) equality is
+    relaxed to |lhs - rhs| <= tol * (1 + sum |V|) under 0 <= gamma <= 1, far below any real discrepancy."""
     S = L.S
+    if rounding_tol is not None:
+        pre = list(pre) + [zx.Z(gamma) >= 0, zx.Z(gamma) <= 1]
+        slack = z3.RealVal(str(rounding_tol)) * (1 + sum(z3.If(zx.Z(v) >= 0, zx.Z(v), -zx.Z(v)) for v in V))
+
+        def close(a, b):
+            d = zx.Z(zx.to_real(a)) - zx.Z(zx.to_real(b))
+            return z3.And(d <= slack, -d <= slack)
+    else:
+        close = zx.eq
     ob.prove("shape", [], new.shape == (S,) and pol.shape == (S, action_space.shape[1]))
     B = kit.bellman(L, V, gamma)
     Q = kit.q_values(L, V, gamma)
@@ -140,11 +153,11 @@ def sweep_obligations(ob, L, new, pol, V, gamma, pre, action_space, cex_extra):
     scaled = list(np.asarray(L.R, dtype=object).flat) + list(V)
     unit = list(np.asarray(L.P, dtype=object).flat) + [gamma]
     for i in range(S):
-        ob.prove(f"sweep==bellman[{i}]", pre, zx.eq(new[i], B[i]), cex=cexf(i, "sweep"), margin=(new[i], B[i], scaled, unit))
+        ob.prove(f"sweep==bellman[{i}]", pre, close(new[i], B[i]), cex=cexf(i, "sweep"), margin=(new[i], B[i], scaled, unit), direct=rounding_tol is not None)
         member, idx = kit.policy_row_index(list(pol[i]), np.asarray(action_space))
         ob.prove(f"policy_in_action_space[{i}]", pre, member, cex=cexf(i, "policy_member"))
         qsel = kit.lookup(Q[i], idx)
-        ob.prove(f"policy_greedy[{i}]", pre, zx.eq(qsel, B[i]), cex=cexf(i, "policy_greedy"), margin=(qsel, B[i], scaled, unit))
+        ob.prove(f"policy_greedy[{i}]", pre, close(qsel, B[i]), cex=cexf(i, "policy_greedy"), margin=(qsel, B[i], scaled, unit), direct=rounding_tol is not None)
 
 
 def differential(ob, solver, pb, new_terms, pol_terms, pairs, Vc, gc):
@@ -260,14 +273,30 @@ def _run_shipped(job, ob):
     rng = np.random.default_rng(job.get("seed", 0) + 3)
     Vc, gc = np.round(rng.normal(size=S) * 3, 3), 0.875
     ex = pathx.Explorer()
+    h = {}
+    exact = job["problem"] in ("forest", "de_moor")
 
     def run():
-        with symbolic():
+        # exact mode (Forest, De Moor: probabilities are table look-ups): the problem's concrete float tables are combined
+        # on rationals, as the reference does, so an algebraically equal rewrite of the kernel stays provable.  Hendrix and
+        # Mirjalili evaluate special functions inside random_event_probability; they run in float mode, where a rewrite that
+        # moves concrete float sub-expressions may differ by rounding from the reference -> reported UNCONFIRMED (exit 2),
+        # never as a violation
+        with symbolic(exact=exact):
             solver.values = sym("V", (S,))
             solver.gamma = sym("gamma")
             new = solver._update_values(solver.batched_states, pb.action_space, pb.random_event_space,
                                         solver.gamma, solver.values)
             pol = solver._extract_policy()
+            # reference tables computed by the problem's own functions under the same exact arithmetic
+            st, ac, ev = pb.state_space, pb.action_space, pb.random_event_space
+            f = jax.vmap(jax.vmap(jax.vmap(pb.transition, in_axes=(None, None, 0)), in_axes=(None, 0, None)), in_axes=(0, None, None))
+            ns, Rx = f(st, ac, ev)
+            Tx = jax.vmap(jax.vmap(jax.vmap(pb.state_to_index)))(ns)
+            g = jax.vmap(jax.vmap(jax.vmap(pb.random_event_probability, in_axes=(None, None, 0)), in_axes=(None, 0, None)), in_axes=(0, None, None))
+            Px = g(st, ac, ev)
+            shp = (pb.n_states, pb.n_actions, pb.n_random_events)
+            h["tables"] = (val_of(Tx).reshape(shp), val_of(Rx).reshape(shp), val_of(Px).reshape(shp))
             return val_of(new), val_of(pol), val_of(solver.values), val_of(solver.gamma)[()]
     for o in ex.explore(run):
         if o.exc is not None:
@@ -278,10 +307,11 @@ def _run_shipped(job, ob):
             ob.fail_harness(f"real code raised under symbolic execution: {o.exc!r}")
             continue
         new, pol, V, gamma = o.value
-        L = ConcreteL(T, R, P)
+        L = ConcreteL(*h["tables"]) if exact else ConcreteL(T, R, P)
         ob.reach("shipped-path", o.pc)
         sweep_obligations(ob, L, new, pol, V, gamma, o.pc, np.asarray(pb.action_space),
-                          dict(problem=job["problem"], devices=job["devices"], bs=job.get("bs", 4)))
+                          dict(problem=job["problem"], devices=job["devices"], bs=job.get("bs", 4)),
+                          rounding_tol=None if exact else 1e-9)
         pairs = kit.assignment_pairs(V, Vc) + [(gamma, zx.from_np_scalar(gc))]
         differential(ob, solver, pb, new, pol, pairs, Vc, gc)
     return ob.result()
